@@ -914,3 +914,119 @@ func ruleG10(r *Run) {
 		}
 	})
 }
+
+// ---------------------------------------------------------------------------------------
+// G11 rate limiter: clamp and timeout gate (C17)
+
+func init() {
+	register("G11", "RateLimiter.Acquire clamps the stored permits to maxPermits unconditionally (the clamp's only condition is permits > maxPermits, for every configured burst including 0) and rejects with ErrTimeout only under timeout > 0 AND delay > timeout (strict)", 2, ruleG11)
+}
+
+func ruleG11(r *Run) {
+	p := r.P
+	fd, pkg := p.DeclOf("rpc/plugins/limiter", "RateLimiter.Acquire")
+	if fd == nil {
+		r.Undec("rate limiter", 0, "RateLimiter.Acquire not found")
+		return
+	}
+	info := pkg.TypesInfo
+	parents := parentMap(fd)
+	// clamp: if permits > l.maxPermits { permits = l.maxPermits }
+	clampOK, clampSeen := false, false
+	var cpos token.Pos
+	ast.Inspect(fd.Body, func(n ast.Node) bool {
+		as, ok := n.(*ast.AssignStmt)
+		if !ok || len(as.Lhs) != 1 || len(as.Rhs) != 1 {
+			return true
+		}
+		fv := fieldOf(info, as.Rhs[0])
+		if fv == nil || fv.Name() != "maxPermits" {
+			return true
+		}
+		clampSeen = true
+		cpos = as.Pos()
+		pobj := identObj(info, as.Lhs[0])
+		facts := collectFacts(parents, as)
+		// exactly one fact, inside the retry loop's body: permits > maxPermits
+		rel := 0
+		exact := false
+		for _, f := range facts {
+			mentions := false
+			ast.Inspect(f.e, func(m ast.Node) bool {
+				if id, ok := m.(*ast.Ident); ok && info.Uses[id] == pobj {
+					mentions = true
+				}
+				if fv2 := fieldOf(info, exprOrNil(m)); fv2 != nil && fv2.Name() == "maxPermits" {
+					mentions = true
+				}
+				return true
+			})
+			if !mentions {
+				continue
+			}
+			rel++
+			if be, ok := f.e.(*ast.BinaryExpr); ok && !f.neg {
+				if (be.Op == token.GTR && identObj(info, be.X) == pobj && fieldOf(info, be.Y) != nil && fieldOf(info, be.Y).Name() == "maxPermits") ||
+					(be.Op == token.LSS && identObj(info, be.Y) == pobj && fieldOf(info, be.X) != nil && fieldOf(info, be.X).Name() == "maxPermits") {
+					exact = true
+				}
+			}
+		}
+		if rel == 1 && exact {
+			clampOK = true
+		}
+		return true
+	})
+	switch {
+	case !clampSeen:
+		r.Viol("burst clamp", fd.Pos(), "the stored permits are no longer clamped to maxPermits: after an idle period the limiter admits rate x idle-time requests at once")
+	case !clampOK:
+		r.Viol("burst clamp", cpos, "the clamp `permits = maxPermits` is guarded by more (or other) conditions than `permits > maxPermits`: for some configured burst the cap is skipped and the limiter admits more than burst + rate x elapsed")
+	default:
+		r.Ok("burst clamp", cpos, "if permits > maxPermits { permits = maxPermits }")
+	}
+	// timeout gate
+	errTimeout := p.LookupObj("rpc/core", "ErrTimeout")
+	var ret *ast.ReturnStmt
+	ast.Inspect(fd.Body, func(n ast.Node) bool {
+		if rs, ok := n.(*ast.ReturnStmt); ok {
+			for _, res := range rs.Results {
+				if objOf(info, res) == errTimeout && errTimeout != nil {
+					ret = rs
+				}
+			}
+		}
+		return true
+	})
+	if ret == nil {
+		r.Viol("timeout rejection gate", fd.Pos(), "Acquire never returns ErrTimeout: callers wait arbitrarily long")
+		return
+	}
+	strict, enabled := false, false
+	for _, f := range collectFacts(parents, ret) {
+		be, ok := f.e.(*ast.BinaryExpr)
+		if !ok || f.neg {
+			continue
+		}
+		isTimeout := func(e ast.Expr) bool { fv := fieldOf(info, e); return fv != nil && fv.Name() == "timeout" }
+		if be.Op == token.GTR && isTimeout(be.Y) && !isTimeout(be.X) {
+			strict = true
+		}
+		if be.Op == token.LSS && isTimeout(be.X) {
+			strict = true
+		}
+		if be.Op == token.GTR && isTimeout(be.X) {
+			if z, ok := intConst(info, be.Y); ok && z == 0 {
+				enabled = true
+			}
+		}
+	}
+	r.Check(strict && enabled, "timeout rejection gate", ret.Pos(), "timeout > 0 && delay > timeout", "ErrTimeout is not returned exactly under `timeout > 0 && delay > timeout`: callers are rejected although the wait they need does not exceed the configured timeout (or never rejected)")
+}
+
+func exprOrNil(n ast.Node) ast.Expr {
+	if e, ok := n.(ast.Expr); ok {
+		return e
+	}
+	return nil
+}
